@@ -53,26 +53,26 @@ def catalogue():
         "scalar-left-sub": (lambda L: E.subtract(10, L, CTX), (1, 0), "ksub 10"),
         "scalar-left-mul": (lambda L: E.multiply(3, L, CTX), (1, 0), "kmul 3"),
         "scalar-left-cmp": (lambda L: E.less_than(7, L, CTX), (1, 0), "klt 7"),
-        "list-list-add": (lambda L: E.add(L, E.multiply(L, 2, CTX), CTX), (2, 2), None),
-        "finite-left-add": (lambda L: E.add([1, 2, 3], L, CTX), (1, 1), None),
-        "nested-scalar-left": (lambda L: E.add(1, E.wrap(L, 2, CTX), CTX), (2, 2), None),
+        "list-list-add": (lambda L: E.add(L, E.multiply(L, 2, CTX), CTX), (2, 2), "triple 0"),
+        "finite-left-add": (lambda L: E.add([1, 2, 3], L, CTX), (1, 1), "addlist 3"),
+        "nested-scalar-left": (lambda L: E.add(1, E.wrap(L, 2, CTX), CTX), (2, 2), "chunksinc 2"),
         "explicit-v-right": (lambda L: E.vectorise(E.add, L, 5, explicit=True, ctx=CTX), (1, 0), "addk 5"),
         "explicit-v-left": (lambda L: E.vectorise(E.add, 5, L, explicit=True, ctx=CTX), (1, 0), "kadd 5"),
         "map-lambda": (lambda L: E.vy_map(L, inc, CTX), (1, 0), "map 0"),
         "filter-odd": (lambda L: E.vy_filter(L, odd, CTX), (2, 2), "filtermod-odd"),
-        "zip-self": (lambda L: E.vy_zip(L, E.increment(L, CTX), CTX), (2, 2), None),
-        "interleave": (lambda L: E.interleave(L, E.multiply(L, 2, CTX), CTX), (1, 2), None),
+        "zip-self": (lambda L: E.vy_zip(L, E.increment(L, CTX), CTX), (2, 2), "zipinc 0"),
+        "interleave": (lambda L: E.interleave(L, E.multiply(L, 2, CTX), CTX), (1, 2), "interleavedbl 0"),
         "prefixes": (lambda L: H.prefixes(L, CTX), (1, 0), "prefixes 0"),
         "cumsum": (lambda L: E.cumulative_sum(L, CTX), (1, 1), "cumsum 0"),
         "deltas": (lambda L: E.deltas(L, CTX), (1, 1), "deltas 0"),
         "windows3": (lambda L: E.overlapping_groups(L, 3, CTX), (1, 3), "windows 3"),
         "chunks2": (lambda L: E.wrap(L, 2, CTX), (2, 2), "chunks 2"),
         "chunks3": (lambda L: E.wrap(L, 3, CTX), (3, 3), "chunks 3"),
-        "flatten-chunks": (lambda L: E.deep_flatten(E.wrap(L, 2, CTX), CTX), (1, 2), None),
-        "uniquify": (lambda L: E.uniquify(L, CTX), (1, 0), None),
+        "flatten-chunks": (lambda L: E.deep_flatten(E.wrap(L, 2, CTX), CTX), (1, 2), "flattenchunks 0"),
+        "uniquify": (lambda L: E.uniquify(L, CTX), (1, 0), "uniq 1"),
         "enumerate": (lambda L: E.vy_enumerate(L, CTX), (1, 1), "enumerate 0"),
         "prepend": (lambda L: E.prepend(L, 0, CTX), (1, 1), "prepend 0"),
-        "merge-front": (lambda L: E.merge([0, 0], L, CTX), (1, 1), None),
+        "merge-front": (lambda L: E.merge([0, 0], L, CTX), (1, 1), "prependlist 2"),
         "slice-from2": (lambda L: L[2:], (1, 3), "slicefrom 2"),
         "slice-from-elem": (lambda L: E.slice_from(L, 3, CTX), (1, 4), "slicefrom 3"),
         "head-remove": (lambda L: E.head_remove(L, CTX), (1, 2), "slicefrom 1"),
@@ -161,6 +161,24 @@ def run(ctx, widen=False):
                ("deltas uniquify" in s) or ("deltas group" in s) or ("compare filter-odd" in s) or ("halve filter-odd" in s) or \
                ("deltas filter-odd" in s) or ("compare" in s and "filter-odd" in s) or ("deltas" in s and ("uniquify" in s or "filter" in s or "group" in s))
     cases = [c for c in cases if not sparse(c["pipeline"])]
+    # … decided for every pipeline by running it on the FINITE list 1..400 (which terminates whatever the stages do): if that does
+    # not contain an n-th item, the infinite run has none within reach either (e.g. double | interleave | filter-odd: all even)
+    finite_len = {}
+    def has_nth(p, n):
+        key = tuple(p)
+        if key not in finite_len:
+            try:
+                with alarm(10):
+                    L = list(range(1, 401))
+                    for name in p:
+                        L = cat()[name][0](L)
+                    finite_len[key] = len(L) if isinstance(L, (list, str)) else len(L.listify())
+            except BaseException:  # noqa: BLE001
+                finite_len[key] = 10 ** 9       # cannot tell: keep the case
+        return finite_len[key] >= n
+    before = len(cases)
+    cases = [c for c in cases if has_nth(c["pipeline"], c["n"])]
+    ctx.bump("pipelines left out because their output on 1..400 has no n-th item", before - len(cases))
     ctx.check_many("lazy_prefix", cases, procs=1)
     ctx.bump("catalogue entries", len(names)); ctx.bump("pipelines x n", len(cases))
     try:
